@@ -32,11 +32,11 @@ theorem C04g_verify_true_iff (X : pkcs7.Ext) (p : pkcs7.PKCS7) (c : X509Cert) :
         X.signerinfo_verify s c p.ContentInfo = (true, none) ∧
         ∀ s' ∈ pre, s'.isCertificate c = true → X.signerinfo_verify s' c p.ContentInfo = (false, none) := by
   rw [verify_eq, ← loop_true_iff]
-  rcases loop_shape X p c p.SignerInfo with h | h | h <;> rw [h]
+  rcases loop_shape X p c p.SignerInfo with h | h | ⟨e, h⟩ <;> rw [h]
   · exact ⟨fun e => (nomatch e), fun e => (nomatch e)⟩
   · exact ⟨fun _ => rfl, fun _ => rfl⟩
   · constructor
-    · intro e; exact absurd (congrArg Prod.fst e) (by decide)
+    · intro e; exact absurd (congrArg Prod.fst e) Bool.false_ne_true
     · intro e; cases e
 
 /-- An entry that does not name the certificate is never handed to the signature check: `Verify`
@@ -51,10 +51,10 @@ theorem C04g_verify_only_named (X X' : pkcs7.Ext) (p : pkcs7.PKCS7) (c : X509Cer
 theorem C04g_verify_shape (X : pkcs7.Ext) (p : pkcs7.PKCS7) (c : X509Cert) :
     (p.Verify X c).1 = true → (p.Verify X c).2 = none := by
   rw [verify_eq]
-  rcases loop_shape X p c p.SignerInfo with h | h | h <;> rw [h]
+  rcases loop_shape X p c p.SignerInfo with h | h | ⟨e, h⟩ <;> rw [h]
   · intro _; rfl
   · intro _; rfl
-  · intro e; exact absurd e (by decide)
+  · intro e; exact absurd e Bool.false_ne_true
 
 /-- `HasCertificate`: some entry names the certificate -/
 theorem C04g_hasCertificate (p : pkcs7.PKCS7) (c : X509Cert) :
